@@ -521,7 +521,7 @@ pub fn run_probe(mem: &Mem, l: &Layout, p: &Probe, eng: Eng) -> (Verdict, bool, 
         let pid = libc::fork();
         assert!(pid >= 0);
         if pid == 0 {
-            libc::alarm(20);
+            libc::alarm(180);
             // for the trap case the child installs a SIGILL handler that verifies memory and exits
             if eng == Eng::Cranelift {
                 install_trap_handler(mem, l, p);
@@ -552,7 +552,7 @@ pub fn run_probe(mem: &Mem, l: &Layout, p: &Probe, eng: Eng) -> (Verdict, bool, 
         } else if libc::WIFSIGNALED(status) {
             let sig = libc::WTERMSIG(status);
             if sig == libc::SIGALRM {
-                Verdict::Inconclusive("probe hit the 20 s watchdog".into())
+                Verdict::Inconclusive("probe hit the 180 s watchdog".into())
             } else {
                 let who = if eng == Eng::Interp { "interp" } else { "cranelift" };
                 Verdict::fail(
